@@ -28,11 +28,13 @@ def main():
     patch = "%s/patch%s.diff" % (out, sfx)
     demo = "%s/demo%s" % (out, sfx)
     cmd = meta["demo_cmd"]
-    m = re.search(r"cp\s+(\S+)\s+(\S+)", cmd)
-    src, dst = m.group(1), m.group(2).replace("<repo>/", "")
-    srcf = os.path.join(out, src) if not os.path.isabs(src) else src
-    if dst in ("", ".", "./") or dst.endswith("/"):
-        dst = os.path.join(dst, os.path.basename(src))
+    m = re.search(r"cp\s+((?:\S+\s+)+?)(\S+)\s*(?:&&|;|$)", cmd)
+    srcs, dst = m.group(1).split(), m.group(2).replace("<repo>/", "")
+    srcfs = [os.path.join(out, x) if not os.path.isabs(x) else x for x in srcs]
+    if len(srcs) > 1 or dst in ("", ".", "./") or dst.endswith("/"):
+        dsts = [os.path.join(dst, os.path.basename(x)) for x in srcs]
+    else:
+        dsts = [dst]
     gt = cmd[cmd.index("go test"):]
     wt = "/tmp/seedcheck-%s-%s" % (pid, n)
     sh("git -C /repo worktree remove --force %s" % wt)
@@ -40,7 +42,8 @@ def main():
     assert rc == 0, o
     result = {"property": pid, "n": n}
     try:
-        shutil.copy(srcf, os.path.join(wt, dst))
+        for a, b in zip(srcfs, dsts):
+            shutil.copy(a, os.path.join(wt, b))
         rc, o = sh(gt, cwd=wt)
         result["demo_passes_without_patch"] = rc == 0
         rc, o = sh("git apply %s" % patch, cwd=wt)
@@ -49,7 +52,8 @@ def main():
         result["builds"] = rc == 0
         rc, o = sh(gt, cwd=wt)
         result["demo_fails_with_patch"] = rc != 0
-        os.remove(os.path.join(wt, dst))
+        for b in dsts:
+            os.remove(os.path.join(wt, b))
         rc, o = sh("go test -vet=off -count=1 ./...", cwd=wt)
         result["existing_tests_pass"] = rc == 0
         if rc != 0:
